@@ -219,4 +219,22 @@ example : inW (runes "a { b }") = false ∧ inW (runes "a {") = false ∧ inW (r
     inW (runes "a\rb") = false ∧ inW (runes "# c\n{\n}") = false ∧ inW (runes "a # \\\n}") = false ∧
     inW (runes "a{") = false ∧ inW (runes "{{x}}") = false ∧ inW (runes "{}{") = false := by decide
 
+/-! ### the command around the formatter
+
+`caddy fmt` (`cmdFmtRunes`, Spec.lean) emits `Format` of the file's text, so both clauses transfer to
+what the user's file looks like after `caddy fmt --overwrite` (on `W` as theorems; everywhere
+else through the `cf` correspondence op plus the `rt` oracle). -/
+
+/-- the file `caddy fmt` leaves behind means what the original meant -/
+theorem cmdFmt_preserves_tokens_partial (x : List Rune) (h : inW x = true) :
+    sameMeaning (tokenize x) (tokenize (cmdFmtRunes x)) = true :=
+  fmt_preserves_tokens_partial x h
+
+/-- a second `caddy fmt --overwrite` changes nothing -/
+theorem cmdFmt_second_run_changes_nothing_partial (x : List Rune) (h : inW x = true) :
+    cmdFmtRunes (cmdFmtRunes x) = cmdFmtRunes x := by
+  have := fmt_idempotent_partial x h
+  unfold idempotentAt at this
+  exact eq_of_beq this
+
 end CaddyModel.C17
